@@ -22,6 +22,7 @@ KEY = envstr("VF_KEY", "")
 VAL = envstr("VF_VAL", "")
 MAXLEV = envint("VF_MAXLEV", 4)
 ALT = envstr("VF_ALT", "")
+JOIN = envstr("VF_JOIN", ",")           # the list separator as written: ',' or ', ' (alternatives are stripped)
 
 
 def _tok(t: str) -> bool:
@@ -65,8 +66,24 @@ def comma(t: str) -> bool:
     post: _
     """
     u = ALT
-    both = _U(PRE + t + "," + u + SUF)
+    both = _U(PRE + t + JOIN + u + SUF)
     a, b = _U(PRE + t + SUF), _U(PRE + u + SUF)
+    if both is None or a is None or b is None:
+        return True
+    if len(both) != len(_union([both])):
+        return fail("duplicates")
+    return _same(both, _union([a, b])) or fail("comma-is-not-the-union")
+
+
+def comma_last(t: str) -> bool:
+    """
+    The symbolic alternative comes LAST: unfold(PRE + ALT + JOIN + t) == unfold(PRE + ALT) U unfold(PRE + t)
+    (JOIN is ',' or ', ': alternatives are stripped; t may be an alias, which is then not the first member of the list).
+    pre: len(t) <= N and _tok(t)
+    post: _
+    """
+    both = _U(PRE + ALT + JOIN + t)
+    a, b = _U(PRE + ALT), _U(PRE + t)
     if both is None or a is None or b is None:
         return True
     if len(both) != len(_union([both])):
